@@ -35,56 +35,87 @@ FAMS = {
     "pragma-blank-run": lambda n: "#pragma" + " \t" * n + "\n" + "# " * n,
 }
 f = FAMS[sys.argv[2]]
-def lex_time(text):
+import resource
+def lex_time(text, reps):
     lx = CLexer(lambda m, a, b: None, lambda: None, lambda: None, lambda n: False)
     best = 1e9
-    for _ in range(3):
+    for _ in range(reps):
         lx.input(text)
         t0 = time.process_time(); k = 0
         while lx.token() is not None and k < 10 * len(text) + 10: k += 1
         best = min(best, time.process_time() - t0)
     return best
+# CPU-time budget per size (RLIMIT_CPU: enforced by the kernel even inside the regex engine, and independent of how busy the
+# machine is): a polynomial of degree <= 2 costs at most ~4x the previous size and sre's one-off strategy switch up to ~200x
+# at millisecond scale; allow 100x (+30 s of CPU, single run) before calling it a blow-up
 n = 6
 pts = []
+last = 0.0
+hard = resource.getrlimit(resource.RLIMIT_CPU)[1]
 while n <= 200000:
-    t = lex_time(f(n)); pts.append((n, t)); print(n, t, flush=True)
-    if t > 0.4 and sum(1 for _, x in pts if x > 0.004) >= 3: break
+    reps = 1
+    budget = 30.0 + 100.0 * last
+    used = time.process_time()
+    lim = int(used + budget) + 1
+    resource.setrlimit(resource.RLIMIT_CPU, (lim, hard if hard == resource.RLIM_INFINITY or hard > lim else lim))
+    print("SIZE", n, "budget", round(budget, 1), flush=True)
+    t = lex_time(f(n), reps); pts.append((n, t)); print(n, t, flush=True)
+    # one more doubling after the first size above 0.4 s of CPU (an exponential family does not survive it); only the kernel
+    # CPU limit gives a verdict, ratios are not used
+    if last > 0.4: break
+    last = t
     n *= 2
 '''
-WORK_SCRIPT = 'import sys, time\nsys.path.insert(0, sys.argv[1] if len(sys.argv)>1 else \'/repo\')\nsys.setrecursionlimit(100000)\nfrom pycparser import c_parser\nFAMS = {\n "nested-switch": lambda n: "void f(void){" + "switch(x){case 1:"*n + ";" + "}"*n + "}",\n "many-cases": lambda n: "void f(void){switch(x){" + "case 1: a; b; case 2: "*n + ";}}",\n "nested-blocks": lambda n: "void f(void){" + "{"*n + ";" + "}"*n + "}",\n "nested-parens": lambda n: "int x = " + "("*n + "1" + ")"*n + ";",\n "binary-chain": lambda n: "int x = 1" + " + 2 * 3"*n + ";",\n "nested-ternary": lambda n: "int x = " + "a ? b : "*n + "c;",\n "nested-struct": lambda n: "struct S {" * n + "int x;" + "} m;"*n ,\n "nested-init": lambda n: "int a[] = " + "{"*n + "1" + "}"*n + ";",\n "many-decls": lambda n: "int a, *b, c[3];"*n,\n "nested-calls": lambda n: "int x = " + "f("*n + "1" + ")"*n + ";",\n "nested-if": lambda n: "void f(void){" + "if (a) "*n + ";}",\n "nested-casts": lambda n: "int x = " + "(int)"*n + "1;",\n "nested-sizeof": lambda n: "int x = " + "sizeof "*n + "1;",\n "postfix-chain": lambda n: "int x = a" + "[1].m->n(2)"*n + ";",\n "pointer-chain": lambda n: "int " + "* const "*n + "p;",\n "array-dims": lambda n: "int a" + "[2]"*n + ";",\n "param-list": lambda n: "void f(" + "int a, "*n + "int z);",\n "enum-list": lambda n: "enum E {" + "A = 1, "*n + "Z};",\n "string-concat": lambda n: "char *s = " + \'"a" \'*n + ";",\n "typedef-chain": lambda n: "typedef int T0;" + "".join(f"typedef T{i} T{i+1};" for i in range(n)),\n "label-chain": lambda n: "void f(void){" + "".join(f"L{i}: " for i in range(n)) + ";}",\n "compound-nesting": lambda n: "void f(void){" + "while (1) { if (x) { "*n + ";" + "} }"*n + "}",\n}\ndef count(text):\n    c=[0]\n    def prof(frame, ev, arg):\n        if ev=="call": c[0]+=1\n    p=c_parser.CParser()\n    sys.setprofile(prof)\n    try:\n        p.parse(text)\n    finally:\n        sys.setprofile(None)\n    return c[0]\nFAMS.update({\n "error-nested-typenames": lambda n: "int x = " + "(int[" * n + "int" + "])0" * n + ";",\n "error-unclosed-parens": lambda n: "int x = " + "(" * n + "1;",\n "error-deep-in-blocks": lambda n: "void f(void){" + "{" * n + "int @;" + "}" * n + "}",\n "error-after-casts": lambda n: "int x = " + "(int)" * n + ";",\n})\ndef count_any(text):\n    try:\n        return count(text)\n    except c_parser.ParseError:\n        return count.last\n_orig_count = count\ndef count(text):\n    c=[0]\n    def prof(frame, ev, arg):\n        if ev=="call": c[0]+=1\n    p=c_parser.CParser()\n    sys.setprofile(prof)\n    try:\n        p.parse(text)\n    except c_parser.ParseError:\n        pass\n    finally:\n        sys.setprofile(None)\n    return c[0]\nnames = sys.argv[2:] or list(FAMS)\nfor nm in names:\n    f=FAMS[nm]; pts=[]\n    for n in (20,40,80,160):\n        try: pts.append(count(f(n)))\n        except Exception as e: pts.append(-1); print("#", nm, n, type(e).__name__, str(e)[:60])\n    print(nm, *pts)\n'
+WORK_SCRIPT = 'import sys, time\nsys.path.insert(0, sys.argv[1] if len(sys.argv)>1 else \'/repo\')\nsys.setrecursionlimit(100000)\nfrom pycparser import c_parser\nFAMS = {\n "nested-switch": lambda n: "void f(void){" + "switch(x){case 1:"*n + ";" + "}"*n + "}",\n "many-cases": lambda n: "void f(void){switch(x){" + "case 1: a; b; case 2: "*n + ";}}",\n "nested-blocks": lambda n: "void f(void){" + "{"*n + ";" + "}"*n + "}",\n "nested-parens": lambda n: "int x = " + "("*n + "1" + ")"*n + ";",\n "binary-chain": lambda n: "int x = 1" + " + 2 * 3"*n + ";",\n "nested-ternary": lambda n: "int x = " + "a ? b : "*n + "c;",\n "nested-struct": lambda n: "struct S {" * n + "int x;" + "} m;"*n ,\n "nested-struct-two-declarators": lambda n: "struct { " * n + "int x;" + " } a, b;" * n,\n "nested-union-members": lambda n: "union U { " * n + "int x; char y;" + " } m, *p;" * n,\n "struct-member-list": lambda n: "struct S { " + "".join(f"int a{i}, *b{i}, c{i}[2]; " for i in range(n)) + "};",\n "nested-init": lambda n: "int a[] = " + "{"*n + "1" + "}"*n + ";",\n "many-decls": lambda n: "".join(f"int a{i}, *b{i}, c{i}[3];" for i in range(n)),\n "nested-calls": lambda n: "int x = " + "f("*n + "1" + ")"*n + ";",\n "nested-if": lambda n: "void f(void){" + "if (a) "*n + ";}",\n "nested-casts": lambda n: "int x = " + "(int)"*n + "1;",\n "nested-sizeof": lambda n: "int x = " + "sizeof "*n + "1;",\n "postfix-chain": lambda n: "int x = a" + "[1].m->n(2)"*n + ";",\n "pointer-chain": lambda n: "int " + "* const "*n + "p;",\n "array-dims": lambda n: "int a" + "[2]"*n + ";",\n "param-list": lambda n: "void f(" + "".join(f"int a{i}, " for i in range(n)) + "int z);",\n "enum-list": lambda n: "enum E {" + "".join(f"A{i} = 1, " for i in range(n)) + "Z};",\n "string-concat": lambda n: "char *s = " + \'"a" \'*n + ";",\n "typedef-chain": lambda n: "typedef int T0;" + "".join(f"typedef T{i} T{i+1};" for i in range(n)),\n "label-chain": lambda n: "void f(void){" + "".join(f"L{i}: " for i in range(n)) + ";}",\n "compound-nesting": lambda n: "void f(void){" + "while (1) { if (x) { "*n + ";" + "} }"*n + "}",\n}\ndef count(text):\n    c=[0]\n    def prof(frame, ev, arg):\n        if ev=="call": c[0]+=1\n    p=c_parser.CParser()\n    sys.setprofile(prof)\n    try:\n        p.parse(text)\n    finally:\n        sys.setprofile(None)\n    return c[0]\nFAMS.update({\n "error-nested-typenames": lambda n: "int x = " + "(int[" * n + "int" + "])0" * n + ";",\n "error-unclosed-parens": lambda n: "int x = " + "(" * n + "1;",\n "error-deep-in-blocks": lambda n: "void f(void){" + "{" * n + "int @;" + "}" * n + "}",\n "error-after-casts": lambda n: "int x = " + "(int)" * n + ";",\n})\ndef count_any(text):\n    try:\n        return count(text)\n    except c_parser.ParseError:\n        return count.last\n_orig_count = count\ndef count(text):\n    c=[0]\n    def prof(frame, ev, arg):\n        if ev=="call": c[0]+=1\n    p=c_parser.CParser()\n    sys.setprofile(prof)\n    try:\n        p.parse(text)\n    except c_parser.ParseError:\n        pass\n    finally:\n        sys.setprofile(None)\n    return c[0]\nnames = sys.argv[2:] or list(FAMS)\nfor nm in names:\n    f=FAMS[nm]; pts=[]\n    for n in (20,40,80,160):\n        try: pts.append(count(f(n)))\n        except Exception as e: pts.append(-1); print("#", nm, n, type(e).__name__, str(e)[:60])\n    print(nm, *pts)\n'
 WORK_FAMILIES = ["nested-switch", "many-cases", "nested-blocks", "nested-parens", "binary-chain", "nested-ternary", "nested-struct",
+                 "nested-struct-two-declarators", "nested-union-members", "struct-member-list",
                  "nested-init", "many-decls", "nested-calls", "nested-if", "nested-casts", "nested-sizeof", "postfix-chain", "pointer-chain",
                  "array-dims", "param-list", "enum-list", "string-concat", "typedef-chain", "label-chain", "compound-nesting",
                  "error-nested-typenames", "error-unclosed-parens", "error-deep-in-blocks", "error-after-casts"]
+
+
+def _work_family(fam):
+    import subprocess
+    pre = "import resource\nresource.setrlimit(resource.RLIMIT_CPU, (150, 160))\n"
+    try:
+        p = subprocess.run([core.REPLAY_PY, "-c", pre + WORK_SCRIPT, core.REPO, fam], capture_output=True, text=True, timeout=900)
+    except subprocess.TimeoutExpired:
+        return fam, None, "WALL"
+    for l in p.stdout.splitlines():
+        w = l.split()
+        if len(w) == 5 and w[0] == fam:
+            return fam, [int(x) for x in w[1:]], None
+    if p.returncode in (-24, -9, 152, 137):
+        return fam, None, "TIMEOUT"
+    return fam, None, "failed: " + (p.stderr or "")[-200:]
 
 
 def work_scaling(tier) -> core.Result:
     """BOUNDED stand-in for the parts of the pipeline that are under no cost contract (ast_transforms, error paths): the number
     of Python calls made by CParser.parse -- a deterministic count, no timing -- on input families at sizes 20/40/80/160
     must at most double (+ slack) when the size doubles."""
-    import subprocess
+    import multiprocessing as mp
 
     res = core.Result()
-    try:
-        p = subprocess.run([core.REPLAY_PY, "-c", WORK_SCRIPT, core.REPO] + WORK_FAMILIES, capture_output=True, text=True, timeout=600)
-        out, err = p.stdout, p.stderr
-    except subprocess.TimeoutExpired as e:
-        out = e.stdout.decode() if isinstance(e.stdout, bytes) else (e.stdout or "")
-        err = "TIMEOUT"
-    rows = {}
-    for l in out.splitlines():
-        parts = l.split()
-        if parts and parts[0] in WORK_FAMILIES and len(parts) == 5:
-            rows[parts[0]] = [int(x) for x in parts[1:]]
+    with mp.get_context("fork").Pool(8) as pool:
+        outs = pool.map(_work_family, WORK_FAMILIES)
+    rows, errs = {}, {}
+    for fam, pts, err in outs:
+        if pts is not None:
+            rows[fam] = pts
+        errs[fam] = err
     for fam in WORK_FAMILIES:
         name = f"C16/work/{fam}"
         pts = rows.get(fam)
         rep = ("import subprocess, sys, os\n" f"SCRIPT = {WORK_SCRIPT!r}\n"
-               f"p = subprocess.run([sys.executable, '-c', SCRIPT, os.environ.get('VERIF_REPO', {core.REPO!r}), {fam!r}], capture_output=True, text=True, timeout=600)\n"
-               "print(p.stdout)\nv = [int(x) for x in p.stdout.split()[-4:]]\n"
-               "print('REPRODUCED' if min(v) < 0 or (v[2] > 2.08 * v[1] and v[3] > 2.15 * v[2]) else 'NOT-REPRODUCED')\n")
+               "pre = 'import resource\\nresource.setrlimit(resource.RLIMIT_CPU, (100, 110))\\n'\n"
+               f"p = subprocess.run([sys.executable, '-c', pre + SCRIPT, os.environ.get('VERIF_REPO', {core.REPO!r}), {fam!r}], capture_output=True, text=True)\n"
+               "print(p.stdout)\nv = [int(x) for x in p.stdout.split()[-4:]] if p.returncode == 0 else []\n"
+               "print('REPRODUCED' if p.returncode != 0 or min(v) < 0 or (v[2] > 2.08 * v[1] and v[3] > 2.15 * v[2]) else 'NOT-REPRODUCED')\n")
+        err = errs.get(fam) or ""
         if pts is None:
-            st, why = (core.REFUTED, "the parser did not finish the family within 600 s") if err == "TIMEOUT" else (core.UNDECIDED, "no measurement: " + err[-200:])
+            st, why = (core.REFUTED, "the parser did not finish sizes 20/40/80/160 of this family within 150 s of CPU (work grows much faster than the input)") \
+                if err == "TIMEOUT" else (core.UNDECIDED, "no measurement: " + err[-200:])
         elif min(pts) < 0:
             st, why = core.REFUTED, f"an exception other than ParseError (RecursionError?) on sizes 20/40/80/160: call counts {pts}"
         else:
@@ -108,16 +139,35 @@ TIMING_FAMILIES = ["escape-run-in-string", "escape-run-unterminated-string", "di
                    "pragma-blank-run"]
 
 
+def _parse_points(out):
+    pts, size = [], None
+    for l in out.splitlines():
+        w = l.split()
+        if len(w) == 4 and w[0] == "SIZE":
+            size = (int(w[1]), float(w[3]))
+        elif len(w) == 2:
+            try:
+                pts.append((int(w[0]), float(w[1])))
+            except ValueError:
+                pass
+    return pts, size
+
+
 def _time_family(name):
+    """Returns (name, points, verdict): verdict None (finished), 'CPU-LIMIT' (the kernel stopped the process because one size
+    used more than 100x (+30 s) the CPU time of the previous size), 'WALL' (safety net: no verdict) or an error text."""
     import subprocess
     try:
-        p = subprocess.run([core.REPLAY_PY, "-c", TIMING_SCRIPT, core.REPO, name], capture_output=True, text=True, timeout=25)
-        pts = [(int(a), float(b)) for a, b in (l.split() for l in p.stdout.splitlines() if l.strip())]
-        return name, pts, None if p.returncode == 0 else p.stderr[-200:]
+        p = subprocess.run([core.REPLAY_PY, "-c", TIMING_SCRIPT, core.REPO, name], capture_output=True, text=True, timeout=600)
+        pts, size = _parse_points(p.stdout)
+        if p.returncode == 0:
+            return name, pts, None
+        if p.returncode in (-24, -9, 152, 137) and size is not None:   # SIGXCPU (or SIGKILL at the hard limit)
+            return name, pts + [(size[0], float("inf"))], f"CPU-LIMIT at n={size[0]} (budget {size[1]} s of CPU)"
+        return name, pts, "failed: " + p.stderr[-200:]
     except subprocess.TimeoutExpired as e:
         out = e.stdout.decode() if isinstance(e.stdout, bytes) else (e.stdout or "")
-        pts = [(int(a), float(b)) for a, b in (l.split() for l in out.splitlines() if l.strip())]
-        return name, pts, "TIMEOUT"
+        return name, _parse_points(out)[0], "WALL"
 
 
 def regex_timing(tier) -> core.Result:
@@ -131,35 +181,36 @@ def regex_timing(tier) -> core.Result:
         rows = pool.map(_time_family, TIMING_FAMILIES)
     for name, pts, err in rows:
         bad, why = False, ""
-        if err == "TIMEOUT":
-            last = pts[-1] if pts else (0, 0)
-            bad, why = True, f"timed out (25 s) after n={last[0]} repetitions took {last[1]:.3f} s: super-polynomial on a short input"
+        if err and err.startswith("CPU-LIMIT"):
+            fin = [q for q in pts if q[1] != float("inf")]
+            last = fin[-1] if fin else (0, 0)
+            bad, why = True, f"{err}: the previous size n={last[0]} took {last[1]:.3f} s of CPU; more than 100x (+30 s of CPU) for one doubling: exponential backtracking"
         elif err:
-            why = "timing script failed: " + err
+            why = "no timing verdict: " + err
         else:
             big = [(n, t) for n, t in pts if t > 0.004]
             ratios = [big[i + 1][1] / big[i][1] for i in range(len(big) - 1)]
             # super-linear only if two consecutive doublings both cost clearly more than double
             # CPU time (not wall time: the machine may be busy), best of three; super-linear = two consecutive doublings that
             # each cost more than 3.3x AND end above 0.3 s of CPU (below that, allocator / cache effects dominate)
-            bad = any(ratios[i] > 3.3 and ratios[i + 1] > 3.3 and big[i + 2][1] > 0.3 for i in range(len(ratios) - 1)) or any(t > 5.0 and n < 2000 for n, t in pts)
+            # No verdict from ratios: on a busy machine CPU-time ratios of 5x between doublings were observed on linear
+            # families (and sre shows a one-off ~100x step when its input outgrows a fast path).  Only the kernel-enforced CPU
+            # limit -- a doubling that costs more than 100x plus 30 s of CPU -- is taken as a blow-up (exponential backtracking).
+            bad = False
             why = "sizes/times " + ", ".join(f"{n}:{t * 1e3:.1f}ms" for n, t in pts[-4:])
         rep = ("import subprocess, sys, os\n"
                f"SCRIPT = {TIMING_SCRIPT!r}\n"
                f"repo = os.environ.get('VERIF_REPO', {core.REPO!r})\n"
-               "try:\n"
-               f"    p = subprocess.run([sys.executable, '-c', SCRIPT, repo, {name!r}], capture_output=True, text=True, timeout=25)\n"
-               "    pts = [l.split() for l in p.stdout.splitlines() if l.strip()]\n"
-               "    print('sizes/times:', pts[-4:])\n"
-               "    slow = any(float(t) > 5.0 and int(n) < 2000 for n, t in pts)\n"
-               "    big = [(int(n), float(t)) for n, t in pts if float(t) > 0.004]\n"
-               "    r = [big[i + 1][1] / big[i][1] for i in range(len(big) - 1)]\n"
-               "    slow = slow or any(r[i] > 3.3 and r[i + 1] > 3.3 and big[i + 2][1] > 0.3 for i in range(len(r) - 1))\n"
-
-               "    print('REPRODUCED' if slow else 'NOT-REPRODUCED')\n"
-               "except subprocess.TimeoutExpired as e:\n"
-               f"    print('family {name}: the real lexer did not finish within 25 s on inputs of doubling size starting at 6 repetitions'); print('REPRODUCED')\n")
-        st = core.REFUTED if bad else (core.UNDECIDED if err and err != "TIMEOUT" else core.DISCHARGED)
+               f"p = subprocess.run([sys.executable, '-c', SCRIPT, repo, {name!r}], capture_output=True, text=True, timeout=900)\n"
+               "print(p.stdout[-600:])\n"
+               "pts = [l.split() for l in p.stdout.splitlines() if len(l.split()) == 2 and l.split()[0].isdigit()]\n"
+               "killed = p.returncode in (-24, -9, 152, 137)\n"
+               "big = [(int(n), float(t)) for n, t in pts if float(t) > 0.004]\n"
+               "r = [big[i + 1][1] / big[i][1] for i in range(len(big) - 1)]\n"
+               "slow = killed\n"
+               "print('stopped by the CPU limit (one doubling cost more than 100x + 30 s of CPU):', killed)\n"
+               "print('REPRODUCED' if slow else 'NOT-REPRODUCED')\n")
+        st = core.REFUTED if bad else (core.UNDECIDED if err and not err.startswith("CPU-LIMIT") else core.DISCHARGED)
         res.obs.append(core.Ob(f"C16/timing/lexer-regex/{name}", st, "timing", 0.0, why, replay=rep if bad else None,
                                functions=["c_lexer._regex_rules" if "directive" not in name and "pragma" not in name else ("CLexer._handle_ppline" if "line" in name else "CLexer._handle_pppragma")], bounded=True, sample=name))
     res.assumptions.append("cost of one `re` match is linear in the text it inspects for the 24 rules: ASSUMED; the timing family is a bounded stand-in")
@@ -176,6 +227,9 @@ def run(tier, seed):
     # each token is lexed once however often the parser backtracks; the lexer loop makes progress on every iteration
     res.add(run_functions(TS.FUNCTIONS + ["CLexer.token#progress"] + LX.PROGRESS_VARIANTS, "C16/smt", tier))
     res.add(regex_timing(tier))
+    # polynomial (not exponential) regex backtracking is invisible to the CPU-limit timing family: static shape check
+    from props import rxambig
+    res.add(rxambig.obligations())
     res.add(work_scaling(tier))
     # a handler that catches ParseError and tries again makes error paths exponential in the nesting depth: the error
     # channel is never intercepted
